@@ -13,7 +13,7 @@ PROP = "C14"
 LEAN_MODULES = ["Props.C14"]
 RULE = (
     "case = a program: a random interleaving of operations over 2-4 objects of the same or related classes - "
-    "registers of two classes that share ONE Line object or one Field object (construct, read a line, write, mutate "
+    "registers of two classes that share ONE Line object or one Field object, and of a class deriving from one of them with a layout of its own (construct, read a line, write, mutate "
     "own data, mutate the list a read returned), register files (construct without arguments, read content, append / "
     "remove elements, MOVE an element from one file to another (remove there, append here), write), block and section files constructed without arguments. After each of its own "
     "operations every object's observables are recorded (register data and written text; file length, element data, "
@@ -55,10 +55,13 @@ def make_env():
     # a date field with a list of formats that overlap on some texts, used by every register of RE
     f_date = DatetimeField(10, 3, format=["%m/%d/%Y", "%d/%m/%Y"])
     RE = type("RE", (Register,), {"IDENTIFIER": "EE", "IDENTIFIER_DIGITS": 2, "LINE": Line([f_date, LiteralField(3, 14)]), "__slots__": []})
-    RF = type("RF", (RegisterFile,), {"REGISTERS": [RA, RB, RC, RD, RE], "__slots__": []})
+    # a later "version" of RA: a register class deriving from another concrete register class, with a layout
+    # of its own (one more column)
+    RG = type("RG", (RA,), {"IDENTIFIER": "GG", "LINE": Line([IntegerField(4, 3), LiteralField(5, 8), FloatField(7, 14, 2), IntegerField(3, 22)]), "__slots__": []})
+    RF = type("RF", (RegisterFile,), {"REGISTERS": [RA, RB, RC, RD, RE, RG], "__slots__": []})
     BF = type("BF", (BlockFile,), {"BLOCKS": [], "__slots__": []})
     SF = type("SF", (SectionFile,), {"SECTIONS": [], "__slots__": []})
-    return {"RA": RA, "RB": RB, "RC": RC, "RD": RD, "RE": RE, "RF": RF, "BF": BF, "SF": SF}
+    return {"RA": RA, "RB": RB, "RC": RC, "RD": RD, "RE": RE, "RG": RG, "RF": RF, "BF": BF, "SF": SF}
 
 
 def obs_reg(r):
@@ -120,7 +123,7 @@ def apply(env, objs, step):
         objs[oid] = ("file", env["RF"].read(codec.dec_str(step["content"])))
     elif op == "file_append":
         kind, f = objs[oid]
-        if step["cls"] in ("RA", "RB", "RC", "RD", "RE"):
+        if step["cls"] in ("RA", "RB", "RC", "RD", "RE", "RG"):
             el = env[step["cls"]](data=[codec.dec_val(v) for v in step["data"]])
             if "tag" in step:
                 objs.setdefault("__tags__", {})[step["tag"]] = el
@@ -371,7 +374,7 @@ print({{k: v for k, v in out.get('checks', {{}}).items() if not v}})
 
 # ------------------------------------------------------------------ generators
 REG_VALS = [[{"i": 1}, {"s": codec.enc_str("ab")}, codec.enc_val(1.5)], [{"i": 22}, None, codec.enc_val(0.0)], [None, {"s": codec.enc_str("xyz")}, None], [{"i": -3}, {"s": []}, codec.enc_val(-2.25)]]
-LINES = ["EE 25/12/2019 x\n", "EE 01/02/2020 y\n", "EE 12/25/2019\n", "AA   12 abcde   1.50\n", "BB  -34 x        2.25\n", "AA\n", "BB zzzz\n", "CC    7 qqq\n", "DD;lit;5\n", "DD;x\n", "garbage\n"]
+LINES = ["EE 25/12/2019 x\n", "EE 01/02/2020 y\n", "EE 12/25/2019\n", "AA   12 abcde   1.50\n", "BB  -34 x        2.25\n", "AA\n", "BB zzzz\n", "CC    7 qqq\n", "DD;lit;5\n", "DD;x\n", "garbage\n", "GG   12 abcde   1.50  77\n", "GG    5 q\n"]
 
 
 DATES = [{"d": [2020, 1, 2, 0, 0, 0, 0]}, {"d": [2019, 12, 25, 0, 0, 0, 0]}, None]
@@ -381,6 +384,8 @@ def vals_for(cls, rng):
     if cls == "RE":
         return [rng.choice(DATES), rng.choice([{"s": codec.enc_str("z")}, None])]
     v = rng.choice(REG_VALS)
+    if cls == "RG":
+        return v + [rng.choice([{"i": 7}, None, {"i": 0}])]
     if cls == "RC":
         v = v[:2]
         if rng.random() < 0.15:
@@ -409,7 +414,7 @@ def random_case(rng):
         k = kinds[oid]
         if oid not in created:
             if k == "reg":
-                cls = rng.choice(["RA", "RB", "RC", "RD", "RE"])
+                cls = rng.choice(["RA", "RB", "RC", "RD", "RE", "RG", "RG"])
                 steps.append({"obj": oid, "op": "new_reg", "cls": cls, "data": rng.choice([None, vals_for(cls, rng)])})
                 kinds[oid] = "reg:" + cls
             elif k == "file":
@@ -442,7 +447,7 @@ def random_case(rng):
                 steps.append({"obj": oid, "op": "file_move_in", "src": t["obj"], "tag": t["tag"], "cls": t["cls"], "data": t["data"]})
             elif r < 0.45:
                 if fcls == "RF" and rng.random() < 0.7:
-                    cls = rng.choice(["RA", "RB", "RC", "RD", "RE"])
+                    cls = rng.choice(["RA", "RB", "RC", "RD", "RE", "RG", "RG"])
                     st = {"obj": oid, "op": "file_append", "cls": cls, "data": vals_for(cls, rng), "tag": len(steps)}
                     steps.append(st)
                     tagged.append(st)
